@@ -73,9 +73,14 @@ def check_pair(pio, platform, board):
     return again
 
 
+def _fresh(s):
+    """an equal string that is a different object (as read from a file, argv or JSON): equality, not identity, is what counts"""
+    return s.encode("utf-8", "surrogatepass").decode("utf-8", "surrogatepass") if isinstance(s, str) else s
+
+
 def _check_pair_once(pio, platform, board):
     try:
-        pio.validate_platform_board(platform, board)
+        pio.validate_platform_board(_fresh(platform), _fresh(board))
         got = True
         err = None
     except ValueError:
@@ -212,6 +217,7 @@ def eval_roundtrip(pio, case):
         if case["libs"] is not None or case["pass_none"]:
             kwargs["lib_deps"] = (iter(case["libs"]) if case["as_iter"] else case["libs"]) if case["libs"] is not None else None
         try:
+            kwargs["platform"], kwargs["board"] = _fresh(kwargs["platform"]), _fresh(kwargs["board"])
             pio.write_project(proj, case["source"], case["port"], **kwargs)
         except Exception as e:  # a registered pair with printable arguments: "always writes"
             if kwargs.get("lib_deps") is not None and case["as_iter"]:
